@@ -558,4 +558,25 @@ example : (published exViews exF ([FEv.other (.setCfg { classic := true, connTim
     (∀ e ∈ exEvs, notSetCfg e = true) := by
   refine ⟨by decide +kernel, by decide⟩
 
+-- `Stats_one_entry_per_link` / `Stats_aggregates` / `Stats_config_block` on the example state (no arm): three links,
+-- the two busy ones active at 5100 with windows 25000 + 25000 and one packet in flight each; a classic configuration
+-- reports quality scoring off
+example :
+    let p : SnapshotM Int Rat := snapshot exF.sys.links { classic := true, quality := true } none (some exF.ctl) 5100
+    (p.links.length, p.totalLinks, p.activeLinks, p.totalWindow, p.totalInFlight, p.classic, p.qualityEnabled) =
+      (3, 3, 2, 50000, 2, true, false) := by
+  decide +kernel
+
+-- `Stats_link_verdicts_by_id` / `Stats_link_no_inputs`: with the controller of the example state (entries for the
+-- ids 1, 2 and the vanished id 5, none for 3) the entries of links 1 and 2 report a known CC state and a target,
+-- link 3 reports `unknown` / 0; no classification: every reason `unknown`
+example :
+    ((snapshot exF.sys.links {} none (some exF.ctl) 5100 : SnapshotM Int Rat).links.map fun e =>
+      (e.ccState.isSome, decide (e.ccTarget = 0), e.weakReason.isSome)) =
+      [(true, false, false), (true, false, false), (false, true, false)] := by
+  decide +kernel
+
+-- `Stats_entry_by_id`: the conn ids of the example state are pairwise distinct
+example : (ids exF.sys.links).Nodup := by decide +kernel
+
 end Srtla.Props.SysStats
